@@ -4,6 +4,8 @@ M10 — certificate hot-reload (src/util/cert_reloader.rs `reload`, `get_accepto
 correctly contains is an input (`none` = missing, truncated, garbled, empty), as is which
 certificates are expired; rustls / rustls-pemfile / x509-parser do the real validation.
 -/
+import AnyTLS.Gen
+
 namespace AnyTLS
 
 /-- what one read of a file yields: the pair id whose certificate (resp. key) it completely
@@ -43,5 +45,25 @@ def CertSt.reloadPinned (st : CertSt) (expired : Nat → Bool) (cert key cert2 :
       ({ st with active := c, info := c2, count := st.count + 1 }, true)
     else (st, false)
   | _, _, _ => (st, false)
+
+/-- `Server::listen` on the reloader's acceptor cell: `snap` is the acceptor the loop holds for the connection it
+is waiting for (meaningful only when the cell is read before `accept()` or before the loop) -/
+structure Listener where
+  st : CertSt
+  snap : Nat
+  deriving Repr, DecidableEq
+
+/-- a connection arrives and is accepted; which pair it is handshaken with depends on where the loop reads the cell -/
+def Listener.conn (k : Gen.AcceptorRead) (l : Listener) : Listener :=
+  match k with
+  | .afterAccept => { l with st := l.st.accept }
+  | .beforeAccept => { st := { l.st with accepted := l.st.accepted ++ [l.snap] }, snap := l.st.active }
+  | .outsideLoop => { l with st := { l.st with accepted := l.st.accepted ++ [l.snap] } }
+
+def Listener.reload (l : Listener) (expired : Nat → Bool) (cert key : FileRead) : Listener :=
+  { l with st := (l.st.reload expired cert key).1 }
+
+/-- a listener that has just started (or just served a connection) holds the current pair -/
+def Listener.start (st : CertSt) : Listener := { st := st, snap := st.active }
 
 end AnyTLS
